@@ -123,10 +123,11 @@ def st_fsreq_tlv(name_budget=20):
     return st.fixed_dictionaries({"t": st.just("fsreq"), "action": st.sampled_from(ACTIONS), "n1": name(name_budget), "n2": name(name_budget)})
 
 
-def st_fsresp_tlv(name_budget=20, msg_budget=16):
+def st_fsresp_tlv(name_budget=20, msg_budget=16, min_chars=0):
     def with_action(a):
         return st.fixed_dictionaries(
-            {"t": st.just("fsresp"), "action": st.just(a), "status": st.sampled_from(valid_statuses(a)), "n1": name(name_budget), "n2": name(name_budget), "msg": hexblob(msg_budget)}
+            {"t": st.just("fsresp"), "action": st.just(a), "status": st.sampled_from(valid_statuses(a)), "n1": name(name_budget, min_chars), "n2": name(name_budget, min_chars),
+             "msg": hexblob(msg_budget)}
         )
 
     return st.sampled_from(ACTIONS).flatmap(with_action)
@@ -201,7 +202,11 @@ def _st_pdu_for(kind, c, small=False):
             return st.fixed_dictionaries(
                 {
                     "kind": st.just("finished"), "conf": cj, "cc": st.just(cc), "delivery": st.integers(0, 1), "status": st.integers(0, 3),
-                    "responses": st.lists(st_fsresp_tlv(10 if small else 20, 6 if small else 16), max_size=2 if small else 3), "fault": fault,
+                    "responses": st.lists(st_fsresp_tlv(10, 6), max_size=2) if small else st.one_of(
+                        st.lists(st_fsresp_tlv(20, 16), max_size=3), st.lists(st_fsresp_tlv(20, 16), max_size=3),
+                        st.lists(st_fsresp_tlv(110, 20, min_chars=25), min_size=2, max_size=5),  # data field well beyond 255 / 256 octets, repeated elements likely
+                        st_fsresp_tlv(20, 16).flatmap(lambda r: st.integers(2, 4).map(lambda k: [r] * k)),  # the same response several times
+                    ), "fault": fault,
                 }
             )
 
@@ -211,16 +216,22 @@ def _st_pdu_for(kind, c, small=False):
             {"kind": st.just("ack"), "conf": cj, "acked": st.sampled_from([R.EOF, R.FINISHED]), "cc": st.sampled_from(CONDITION_CODES), "status": st.integers(0, 3)}
         )
     if kind == "metadata":
-        nm = st.one_of(st.none(), name(12 if small else 40, min_chars=1))
+        nm = st.one_of(st.none(), name(12, min_chars=1)) if small else st.one_of(st.none(), name(40, min_chars=1), name(40, min_chars=1), name(255, min_chars=100))
         return st.fixed_dictionaries(
             {
                 "kind": st.just("metadata"), "conf": cj, "closure": st.booleans(), "cktype": st.sampled_from(CHECKSUM_TYPES), "size": st_fss(c),
-                "src_name": nm, "dst_name": nm, "options": st.one_of(st.none(), st.lists(st_option_tlv(), min_size=1, max_size=3)),
+                "src_name": nm, "dst_name": nm, "options": st.one_of(st.none(), st.lists(st_option_tlv(), min_size=1, max_size=3)) if small else st.one_of(
+                    st.none(), st.lists(st_option_tlv(), min_size=1, max_size=3), st.lists(st_option_tlv(), min_size=1, max_size=3),
+                    st.lists(st.one_of(st_flow_tlv(255), st_msg_tlv(255), st_fsreq_tlv(100)), min_size=2, max_size=5),
+                    st_option_tlv().flatmap(lambda o: st.integers(2, 4).map(lambda k: [o] * k)),  # the same option several times
+                ),
             }
         )
     if kind == "nak":
         seg = st.tuples(st_fss(c), st_fss(c)).map(list)
-        return st.fixed_dictionaries({"kind": st.just("nak"), "conf": cj, "start": st_fss(c), "end": st_fss(c), "segs": st.lists(seg, max_size=3 if small else 6)})
+        segs = st.lists(seg, max_size=3) if small else st.one_of(st.lists(seg, max_size=6), st.lists(seg, max_size=6), st.lists(seg, min_size=17, max_size=40),
+                                                                  seg.flatmap(lambda x: st.integers(2, 5).map(lambda k: [x] * k)))
+        return st.fixed_dictionaries({"kind": st.just("nak"), "conf": cj, "start": st_fss(c), "end": st_fss(c), "segs": segs})
     if kind == "prompt":
         return st.fixed_dictionaries({"kind": st.just("prompt"), "conf": cj, "resp": st.integers(0, 1)})
     if kind == "keepalive":
@@ -416,6 +427,11 @@ def pdu_classes(p):
             out.append("crc+tlv")
     if k == "nak" and p["segs"]:
         out.append("segment requests")
+    items = p.get("responses") if k == "finished" else (p.get("options") if k == "metadata" else (p.get("segs") if k == "nak" else None))
+    if items and len(items) >= 2 and any(items[i] == items[j] for i in range(len(items)) for j in range(i + 1, len(items))):
+        out.append("repeated list element")
+    if items and len(items) >= 4:
+        out.append(">= 4 list elements")
     if k == "filedata":
         if p["data"] == "":
             out.append("empty file data")
